@@ -112,7 +112,7 @@ def jreq_w(vals):
     return {'f': {'c': {'C': c}, 'n': 5, 'cs': [{'C': c}]}}
 
 
-ALIENS = ([], {}, 5, -1, 1.5, 'x', '', None, True, [1, [2]], {'q': 1}, [None], 2 ** 70, 'é' * 3)
+ALIENS = ([], {}, 5, -1, 1.5, 'x', '', None, True, [1, [2]], {'q': 1}, [None], 2 ** 70, 'é' * 3, {'i': 1, 's': 'x'}, {'a': 1, 'b': 2, 'c': 3})
 
 
 def mutate_tree(d):
@@ -255,6 +255,13 @@ def corpus(fam, quick):
             out.append((q, {'REQUEST_METHOD': 'GET', 'PATH_INFO': '/f', 'QUERY_STRING': q}, b''))
         for path in ['/', '', '/f/', '/zzz', '/F', '//f', '/f/x', '/%66']:
             out.append(('path ' + path, {'REQUEST_METHOD': 'GET', 'PATH_INFO': path, 'QUERY_STRING': 'n=1'}, b''))
+        # request headers HttpRpc looks into: cookies (quoted values with escapes), and an environ without a query string
+        for ck in ['a=b', 'token="a\\089"', 'token="\\999"', 'token="a\\011b"', 'token="\\"', 't="\\8"', 'x', '=', ';;;', 'a="', 'a=b; a=c', 'n=5',
+                   'token="\\400"', '\xff=\xfe', 'a=' + 'b' * 5000]:
+            out.append(('cookie %r' % ck, {'REQUEST_METHOD': 'GET', 'PATH_INFO': '/f', 'QUERY_STRING': 'n=1', 'HTTP_COOKIE': ck}, b''))
+        out.append(('no-query-string', {'REQUEST_METHOD': 'GET', 'PATH_INFO': '/f', 'QUERY_STRING': None}, b''))
+        for verb in ['HEAD', 'OPTIONS', 'TRACE', 'DELETE', '', 'get', 'BREW']:
+            out.append(('verb %r' % verb, {'REQUEST_METHOD': verb, 'PATH_INFO': '/f', 'QUERY_STRING': 'n=1'}, b''))
     if fam.kind != 'flat':
         for i, b in enumerate(fixed_random_bytes(300 if quick else 2000)):
             out.append(('rand%d' % i, {}, b))
@@ -446,6 +453,8 @@ def run(ctx):
                                    'wsgi.url_scheme': 'http', 'SERVER_NAME': 'x', 'SERVER_PORT': '80',
                                    'CONTENT_LENGTH': str(len(body))}
                             env.update(envx)
+                            for k_ in [k for k, v_ in env.items() if v_ is None]:
+                                del env[k_]                   # (None: the key is absent from the environ)
                             small = env.pop('_small', False)
                             if env.pop('_decl', False):
                                 env['CONTENT_TYPE'] = (fam.ctype or 'text/xml') + '; charset=utf-8'
